@@ -6,6 +6,9 @@ From Coq Require Import ZArith NArith List Lia Bool.
 From CB Require Import Wasm.Syntax Wasm.Compile.
 Import ListNotations.
 Local Open Scope Z_scope.
+Local Arguments i32_bytes : simpl never.
+Local Arguments u32_bytes : simpl never.
+Local Arguments u16_bytes : simpl never.
 
 Ltac splits := repeat match goal with |- _ /\ _ => split end.
 
@@ -185,4 +188,223 @@ Proof.
     exists idx. cbn. splits; auto; try (unfold idx; lia); try (unfold same_out; cbn; tauto).
     + exists [(c, idx)]. reflexivity.
     + constructor; cbn; auto.
+Qed.
+
+(** ** the straight-line part of [handle_opcode] *)
+Definition set_tee (lp : option Z) (s : cstate) (i : nat) (is_set : bool) : option cstate :=
+  let idx := Z.of_nat i in
+  let '(st', s1, reserve) := preserve_local idx (c_stack s) s None in
+  let s2 := set_stack s1 st' in
+  let s3 := match reserve with
+            | Some rp => push_loc (emit (push_op s2 ICopy) (i32_bytes idx)) rp
+            | None => s2
+            end in
+  let short := match lp, reserve with Some bl, None => Some bl | _, _ => None end in
+  match short with
+  | Some back_loc =>
+      match consume (back_patch s3 back_loc idx) with
+      | Some (_, s4) => Some (if is_set then s4 else provide_existing s4 (PLocal idx))
+      | None => None
+      end
+  | None =>
+      match push_consume (push_op s3 ICopy) with
+      | Some (_, s4) =>
+          let s5 := emit s4 (i32_bytes idx) in
+          Some (if is_set then s5 else provide_existing s5 (PLocal idx))
+      | None => None
+      end
+  end.
+
+Definition const_i64 (t : valtype) (z : Z) : Z :=
+  match t with
+  | T_i32 => if z <? 2147483648 then z else z - 4294967296
+  | T_i64 => if z <? 9223372036854775808 then z else z - 18446744073709551616
+  end.
+
+(** instructions of the shape  opcode, immediate bytes, k consumed operands, [provided result] *)
+Definition emit_imm (s : cstate) (imm : list N) : cstate := match imm with [] => s | _ => emit s imm end.
+Definition gi (s : cstate) (opc : N) (imm : list N) (k : nat) (prov : bool) : option cstate :=
+  match push_consume_n k (emit_imm (push_op s opc) imm) with
+  | Some s1 => Some (if prov then push_provide s1 else s1)
+  | None => None
+  end.
+Definition gi_shape (b : binstr) : option (N * list N * nat * bool) :=
+  match b with
+  | BSelect => Some (ISelect, [], 3%nat, true)
+  | BGlobalGet i => Some (IGlobalGet, u16_bytes (Z.of_nat i), 0%nat, true)
+  | BGlobalSet i => Some (IGlobalSet, u16_bytes (Z.of_nat i), 1%nat, false)
+  | BLoad t pk off => Some (load_opcode t pk, u32_bytes (Z.of_N off), 1%nat, true)
+  | BStore t pk off => Some (store_opcode t pk, u32_bytes (Z.of_N off), 2%nat, false)
+  | BMemorySize => Some (IMemorySize, [], 0%nat, true)
+  | BMemoryGrow => Some (IMemoryGrow, [], 1%nat, true)
+  | BUnop t o => Some (unop_opcode t o, [], 1%nat, true)
+  | BBinop t o => Some (binop_opcode t o, [], 2%nat, true)
+  | BEqz t => Some (eqz_opcode t, [], 1%nat, true)
+  | BRelop t o => Some (relop_opcode t o, [], 2%nat, true)
+  | BCvt o => Some (cvt_opcode o, [], 1%nat, true)
+  | _ => None
+  end.
+
+(** [score lp s b]: what [handle_opcode] does for the basic instruction [b] in reachable code,
+    [s] being the state with [last_provide_loc] already taken ([lp]) *)
+Definition score (lp : option Z) (s : cstate) (b : binstr) : option cstate :=
+  match b with
+  | BNop => Some s
+  | BDrop => match consume s with Some (_, s1) => Some s1 | None => None end
+  | BLocalGet i => Some (provide_existing s (PLocal (Z.of_nat i)))
+  | BLocalSet i => set_tee lp s i true
+  | BLocalTee i => set_tee lp s i false
+  | BConst t z => Some (push_constant s (const_i64 t z))
+  | _ => match gi_shape b with
+         | Some (opc, imm, k, prov) => gi s opc imm k prov
+         | None => None
+         end
+  end.
+
+Definition straight (b : binstr) : bool :=
+  match b with
+  | BNop | BDrop | BLocalGet _ | BLocalSet _ | BLocalTee _ | BConst _ _ => true
+  | _ => match gi_shape b with Some _ => true | None => false end
+  end.
+
+Lemma handle_eq cx s v b :
+  straight b = true ->
+  handle_opcode cx s v Reachable (OBasic b) =
+  match score (c_last s) (set_last s None) b with
+  | Some x => if (length (c_stack x) =? v_opds v)%nat then Some x else None
+  | None => None
+  end.
+Proof.
+  intros Hs. destruct b; try discriminate Hs; try reflexivity.
+  all: repeat match goal with
+              | x : option _ |- _ => destruct x
+              | x : (_ * _)%type |- _ => destruct x
+              | x : packsize |- _ => destruct x
+              | x : sx |- _ => destruct x
+              | x : valtype |- _ => destruct x
+              end; try reflexivity.
+  all: unfold handle_opcode; cbv beta iota zeta; unfold score, gi, gi_shape, emit_imm, push_nary;
+       unfold u16_bytes, u32_bytes; cbn [push_consume_n le_bytes];
+       repeat match goal with
+              | |- context [match push_consume ?X with _ => _ end] => destruct (push_consume X) as [[? ?]|]
+              | |- context [match push_consume_n ?k ?X with _ => _ end] => destruct (push_consume_n k X)
+              end; try reflexivity.
+Qed.
+
+Lemma handle_score cx s v b s' :
+  straight b = true -> handle_opcode cx s v Reachable (OBasic b) = Some s' ->
+  score (c_last s) (set_last s None) b = Some s' /\ length (c_stack s') = v_opds v.
+Proof.
+  intros Hs H. rewrite (handle_eq cx s v b Hs) in H.
+  destruct (score (c_last s) (set_last s None) b) as [x|]; [|discriminate].
+  destruct (Nat.eqb_spec (length (c_stack x)) (v_opds v)); [|discriminate].
+  inversion H; subst. auto.
+Qed.
+
+Lemma straight_vstep cx v b v' :
+  straight b = true -> v_unreach v = None -> vstep cx v (OBasic b) = Some v' -> v_unreach v' = None.
+Proof.
+  intros Hs Hu H.
+  assert (P : forall n w, v_unreach (v_pushn n w) = v_unreach w).
+  { induction n; intros; cbn; auto. rewrite IHn. reflexivity. }
+  assert (Q1 : forall w w', v_pop w = Some w' -> v_unreach w' = v_unreach w).
+  { intros w w'. unfold v_pop. destruct (v_ctrls w); [discriminate|].
+    destruct (v_opds w =? vf_height v0)%nat; [destruct (vf_unreachable v0)|]; intros E; inversion E; reflexivity. }
+  assert (Q : forall n w w', v_popn n w = Some w' -> v_unreach w' = v_unreach w).
+  { induction n; intros w w' E; cbn in E; [inversion E; reflexivity|].
+    destruct (v_pop w) eqn:E1; [|discriminate]. rewrite (IHn _ _ E). eapply Q1; eauto. }
+  destruct b; try discriminate Hs; cbn [vstep] in H;
+    try (destruct (pops_pushes _) as [po pu] eqn:Epp; destruct (v_popn po v) eqn:E; [|discriminate];
+         inversion H; rewrite P; rewrite (Q _ _ _ E); exact Hu).
+Qed.
+
+(** ** push_consume_n *)
+Definition loc_bytes (ps : list provider) : list N := flat_map (fun p => i32_bytes (provider_idx p)) ps.
+
+Lemma push_consume_n_spec nl k : forall s s',
+  push_consume_n k s = Some s' -> cwf nl s ->
+  exists ps, c_stack s = ps ++ c_stack s' /\ length ps = k
+  /\ c_out s' = c_out s ++ loc_bytes ps /\ c_bp s' = c_bp s /\ c_last s' = c_last s
+  /\ c_next s' = c_next s /\ c_consts s' = c_consts s /\ cwf nl s' /\ Forall (pwf nl s) ps.
+Proof.
+  induction k as [|k IH]; intros s s' H W; cbn [push_consume_n] in H.
+  - inversion H; subst. exists []. cbn. rewrite app_nil_r. splits; auto.
+  - unfold push_consume in H. destruct (consume s) as [[p s1]|] eqn:E; [|discriminate].
+    destruct (consume_spec nl s p s1 E W) as (Es & (O1 & O2 & O3) & En & Ec & W1 & Wp).
+    assert (W1' : cwf nl (push_loc s1 p)) by (eapply cwf_same; [|exact W1]; unfold push_loc; apply same_alloc_emit).
+    destruct (IH _ _ H W1') as (ps & Es' & Lps & Eo & Eb & El & En' & Ec' & W' & Fp).
+    unfold push_loc, emit in Eo, Eb, El, En', Ec', Es'. cbn [c_bp c_last c_next c_consts c_out c_stack set_out] in Eo, Eb, El, En', Ec', Es'.
+    exists (p :: ps). splits; auto; try congruence.
+    + rewrite Es, Es'. reflexivity.
+    + cbn [length]. lia.
+    + rewrite Eo, O1. unfold loc_bytes. cbn [flat_map]. rewrite app_assoc. reflexivity.
+    + constructor; auto. eapply Forall_impl; [|exact Fp]. intros q Hq.
+      destruct q as [r|l|c]; cbn [pwf] in *; auto.
+      * unfold push_loc, emit in Hq. cbn [c_next c_reuse set_out] in Hq.
+        destruct Hq as [B N]. rewrite En in B. split; auto. intro Hin. apply N.
+        unfold consume in E. destruct (c_stack s) as [|q0 st0]; [discriminate|].
+        destruct (negb (existsb (provider_eqb q0) st0)); inversion E; subst; cbn; auto.
+        destruct p; cbn; auto. apply insert_sorted_in. right; exact Hin.
+      * unfold push_loc, emit in Hq. cbn [c_consts set_out] in Hq. rewrite Ec in Hq. exact Hq.
+Qed.
+
+(** ** provide *)
+Lemma push_provide_spec nl s :
+  cwf nl s ->
+  exists r, c_stack (push_provide s) = PDyn r :: c_stack s
+  /\ c_out (push_provide s) = c_out s ++ i32_bytes r
+  /\ c_last (push_provide s) = Some (cur_off s) /\ c_bp (push_provide s) = c_bp s
+  /\ c_consts (push_provide s) = c_consts s
+  /\ c_next s <= c_next (push_provide s) <= c_next s + 1
+  /\ nl <= r < c_next (push_provide s) /\ ~ In (PDyn r) (c_stack s)
+  /\ cwf nl (push_provide s).
+Proof.
+  intros W. unfold push_provide, provide. destruct (dyn_get s) as [r s1] eqn:E.
+  destruct (dyn_get_spec nl s r s1 E W) as (B & N & Nst & Es & (O1 & O2 & O3) & Ec & Bn & Sub & W1).
+  assert (C : cwf nl (set_last (emit (set_stack s1 (PDyn r :: c_stack s1)) (i32_bytes r))
+                               (Some (cur_off (set_stack s1 (PDyn r :: c_stack s1)))))).
+  { eapply cwf_same; [|apply (cwf_push_dyn nl s1 r W1 B N)]. repeat split. }
+  exists r. cbn [c_stack c_out c_last c_bp c_consts c_next set_last emit set_out set_stack].
+  unfold cur_off in *. cbn [c_out set_stack] in *. rewrite Es, O1 in *. splits; auto; try lia.
+Qed.
+
+(** ** preserve_local *)
+Definition is_local (idx : Z) (p : provider) : bool := match p with PLocal l => l =? idx | _ => false end.
+Definition has_local (idx : Z) (st : list provider) : bool := existsb (is_local idx) st.
+Definition subst_local (idx : Z) (rp : provider) (p : provider) : provider := if is_local idx p then rp else p.
+
+Lemma map_subst_nolocal idx rp r : has_local idx r = false -> map (subst_local idx rp) r = r.
+Proof.
+  induction r as [|q r IH]; cbn [has_local existsb map]; intros H; [reflexivity|].
+  apply orb_false_iff in H. destruct H as [H1 H2]. unfold subst_local at 1. rewrite H1. f_equal. apply IH. exact H2.
+Qed.
+
+Lemma preserve_local_spec idx st : forall s res,
+  preserve_local idx st s res =
+  if has_local idx st then
+    match res with
+    | Some rp => (map (subst_local idx rp) st, s, Some rp)
+    | None => let '(d, s2) := dyn_get s in (map (subst_local idx (PDyn d)) st, s2, Some (PDyn d))
+    end
+  else (st, s, res).
+Proof.
+  induction st as [|p r IH]; intros s res; cbn [preserve_local has_local existsb map].
+  - reflexivity.
+  - rewrite IH. fold (has_local idx r).
+    destruct (is_local idx p) eqn:Ep; cbn [orb].
+    + destruct p as [d|l|c]; cbn [is_local] in Ep; try discriminate. rewrite Ep.
+      assert (Sp : forall rp, subst_local idx rp (PLocal l) = rp) by (intros; unfold subst_local; cbn [is_local]; rewrite Ep; reflexivity).
+      destruct (has_local idx r) eqn:Hr.
+      * destruct res as [rp|].
+        -- rewrite Sp. reflexivity.
+        -- destruct (dyn_get s) as [d s2]. rewrite Sp. reflexivity.
+      * destruct res as [rp|].
+        -- rewrite Sp, map_subst_nolocal by exact Hr. reflexivity.
+        -- destruct (dyn_get s) as [d s2]. rewrite Sp, map_subst_nolocal by exact Hr. reflexivity.
+    + assert (Sp : forall rp, subst_local idx rp p = p) by (intros; unfold subst_local; rewrite Ep; reflexivity).
+      destruct (has_local idx r) eqn:Hr.
+      * destruct res as [rp|].
+        -- rewrite Sp. destruct p as [d|l|c]; cbn [is_local] in Ep; try rewrite Ep; reflexivity.
+        -- destruct (dyn_get s) as [d s2]. rewrite Sp. destruct p as [d'|l|c]; cbn [is_local] in Ep; try rewrite Ep; reflexivity.
+      * destruct p as [d|l|c]; cbn [is_local] in Ep; try rewrite Ep; reflexivity.
 Qed.
